@@ -199,8 +199,12 @@ impl SimFile {
             let r = &s.log[id];
             (r.kind, r.off, r.len)
         };
-        let fail = Self::should_fail(&mut s, kind, off, len, id);
+        let mut fail = Self::should_fail(&mut s, kind, off, len, id);
         s.log[id].done = true;
+        // offsets a host file cannot have (off_t is signed): EINVAL
+        if kind != Kind::Sync && (off >= (1 << 62) || (len as u64) >= (1 << 62)) {
+            fail = true;
+        }
         if fail {
             s.log[id].result = Some(false);
             return;
